@@ -14,7 +14,7 @@ use opcua::types::*;
 use std::sync::Arc;
 
 #[derive(Clone, Debug)]
-pub enum Op { Start, RespOk(u32, u32, u32), RespErr(u32, u8) } // RespErr kind: 0 timeout, 1 service fault, 2 unexpected response, 3 closed
+pub enum Op { Start, RespOk(u32, u32, u32), RespOkBad(u32, u32, u32, u8), RespErr(u32, u8) } // RespErr kind: 0 timeout, 1 service fault, 2 unexpected response, 3 closed
 pub struct P;
 
 fn enc(acks: &[(u32, u32)], out: &mut Vec<i128>) {
@@ -62,12 +62,16 @@ async fn exec_async(ops: &[Op]) -> Vec<i128> {
                 enc(&acks, &mut out);
                 inflight.push((m.callback.unwrap(), h));
             }
-            Op::RespOk(k, sub, seq) => {
+            Op::RespOk(k, sub, seq) | Op::RespOkBad(k, sub, seq, _) => {
                 if !inflight.is_empty() {
                     let i = (*k as usize) % inflight.len();
                     let (cb, h) = inflight.remove(i);
                     let resp = PublishResponse {
-                        response_header: ResponseHeader::null(),
+                        response_header: match op {
+                            // a typed PublishResponse whose header carries a Bad service result
+                            Op::RespOkBad(_, _, _, st) => { let mut h = ResponseHeader::null(); h.service_result = [StatusCode::BadTooManyPublishRequests, StatusCode::BadNoSubscription, StatusCode::BadSequenceNumberUnknown, StatusCode::BadInternalError][*st as usize % 4]; h }
+                            _ => ResponseHeader::null(),
+                        },
                         subscription_id: *sub,
                         available_sequence_numbers: None,
                         more_notifications: false,
@@ -112,6 +116,9 @@ impl Property for P {
             vec![Start, RespOk(0, 1, 10), Start, RespErr(0, 1), Start, RespErr(0, 2), Start, RespErr(0, 3), Start, RespOk(0, 1, 11)],
             // the same number received twice (keep-alive carries the next sequence number)
             vec![Start, RespOk(0, 1, 5), Start, RespOk(0, 1, 5), Start, RespOk(0, 1, 6), Start],
+            // PublishResponse with a Bad service result in its header, with acknowledgements in flight
+            vec![Start, RespOk(0, 7, 1), Start, RespOkBad(0, 7, 2, 0), Start, RespOk(0, 7, 3), Start, RespOk(0, 7, 4)],
+            vec![Start, RespOk(0, 1, 1), Start, RespOkBad(0, 1, 2, 1), Start, RespOkBad(0, 1, 3, 2), Start, RespErr(0, 0), Start],
             vec![RespOk(0, 1, 1), RespErr(0, 0), Start, Start, Start, RespOk(2, 1, 1), RespOk(1, 2, 1), RespErr(0, 0), Start, RespOk(0, 3, 3)],
         ]
     }
@@ -128,7 +135,9 @@ impl Property for P {
                 let sub = r.below(3) as u32;
                 // mostly fresh increasing numbers, sometimes a repeat (keep-alive)
                 if !r.chance(1, 6) { seq[sub as usize] += 1; }
-                ops.push(Op::RespOk(r.below(4) as u32, sub + 1, seq[sub as usize])); infl = infl.saturating_sub(1);
+                if r.chance(1, 5) { ops.push(Op::RespOkBad(r.below(4) as u32, sub + 1, seq[sub as usize], r.below(4) as u8)); }
+                else { ops.push(Op::RespOk(r.below(4) as u32, sub + 1, seq[sub as usize])); }
+                infl = infl.saturating_sub(1);
             } else {
                 ops.push(Op::RespErr(r.below(4) as u32, r.below(4) as u8)); infl = infl.saturating_sub(1);
             }
@@ -141,10 +150,12 @@ impl Property for P {
         let out = match guarded(|| rt.block_on(exec_async(&ops))) { Ok(o) => o, Err(_) => vec![-2] };
         let fails = c.iter().filter(|o| matches!(o, Op::RespErr(..))).count();
         let maxin = { let mut m = 0i32; let mut cur = 0i32; for o in c { match o { Op::Start => { cur += 1; m = m.max(cur); } _ => { cur = (cur - 1).max(0); } } } m };
-        let tag = format!("{}-{}", if fails == 0 { "nofail" } else { "fail" }, if maxin > 1 { "concurrent" } else { "sequential" });
+        let badh = c.iter().any(|o| matches!(o, Op::RespOkBad(..)));
+        let tag = format!("{}-{}{}", if fails == 0 { "nofail" } else { "fail" }, if maxin > 1 { "concurrent" } else { "sequential" }, if badh { "-badheader" } else { "" });
         let term = coq_list(c, |o| match o {
             Op::Start => "Start".to_string(),
             Op::RespOk(k, s, q) => format!("RespOk {} {} {}", k, s, q),
+            Op::RespOkBad(k, s, q, _) => format!("RespOkBad {} {} {}", k, s, q),
             Op::RespErr(k, _) => format!("RespErr {}", k),
         });
         Out { tag, term, out }
